@@ -482,13 +482,33 @@ def history_program(rng, steps=40):
     def some_vec():
         return rng.choice(vecs)
 
+    made_by = {}
     for step in range(steps):
         k = rng.random()
+        k2 = rng.random()
+        if k2 < 0.06 and counters:
+            # a variable is assigned a NEW object that looks like the one it holds: a fresh counter from the same
+            # generator, a distinct vector with the same contents
+            c, kind = rng.choice(counters)
+            forms.append("(set! %s (%s %d))" % (c, made_by[c], rng.randint(0, 9)))
+            forms.append("((cdr %s))" % c if kind == "pair" else "(%s 0)" % c)
+            stats["set!"] += 1
+            continue
+        if k2 < 0.12 and len(vecs) >= 2:
+            a, b = some_vec(), some_vec()
+            forms.append("(set! %s %s)" % (a, b))
+            forms.append("(eq? %s %s)" % (a, b))
+            forms.append("(if (< 0 (vector-length %s)) (vector-set! %s 0 %d) 'short)" % (b, b, rng.randint(400, 499)))
+            forms.append("(list %s %s)" % (a, b))
+            stats["set!"] += 1
+            stats["alias"] += 1
+            continue
         if (k < 0.12 and len(counters) < 5) or not counters:
             g, kind = rng.choice(gens)
             c = "c%d" % len(counters)
             forms.append("(define %s (%s %d))" % (c, g, rng.randint(0, 9)))
             counters.append((c, kind))
+            made_by[c] = g
         elif k < 0.30:
             c, kind = rng.choice(counters)
             d = rng.randint(1, 5)
@@ -516,7 +536,11 @@ def history_program(rng, steps=40):
             v = "v%d" % len(vecs)
             how = rng.random()
             if how < 0.4 or not vecs:
-                forms.append("(define %s (vector %s))" % (v, " ".join(str(rng.randint(0, 9)) for _ in range(rng.randint(1, 4)))))
+                if rng.random() < 0.5:
+                    # distinct vectors with equal contents
+                    forms.append("(define %s %s)" % (v, rng.choice(["(vector 0 0)", "(make-vector 2 0)", "(vector 7)"])))
+                else:
+                    forms.append("(define %s (vector %s))" % (v, " ".join(str(rng.randint(0, 9)) for _ in range(rng.randint(1, 4)))))
             elif how < 0.6:
                 forms.append("(define %s %s)" % (v, some_vec()))          # alias through a variable
                 stats["alias"] += 1
@@ -1250,7 +1274,11 @@ def render_lines(rng, forms, style):
 # C17: program files
 # ------------------------------------------------------------------------------------------
 SYNTAX_FAULTS = ["(define)", ")", "(display 1", "#z", "\"unterminated", "(lambda)", "(if)", "(let ((x)) x)", "(1 . 2)",
-                 "(define-syntax m)", "'", "(quote)", "#\\"]
+                 "(define-syntax m)", "(quote)"]     # not "'" (it quotes the next form), not "#\\": before a line break it is the newline character
+
+
+FILE_STRINGS = ['(display "name    \nvalue\t\n")', '(display "two  \n  lines")', '(display (list "a \n" "b\t\n\t"))',
+                '(display "ends in escape \\\\\nnext")', '(display "x\n\n y ")', '(display "tab\there ")']
 
 
 def file_program(rng, nforms=8):
@@ -1264,6 +1292,9 @@ def file_program(rng, nforms=8):
         else:
             forms.append(rng.choice(["(display %s)", "(display %s) (newline)", "(display (list %s \"a b\" #\\c 1.5 1/2))",
                                      "%s"]) % f)
+    # string literals that span lines, with blanks / tabs before the line break and escapes at line ends
+    for _ in range(rng.choice([0, 0, 1, 2])):
+        forms.insert(rng.randint(1, len(forms)), rng.choice(FILE_STRINGS))
     idx, kind = None, None
     k = rng.random()
     if k < 0.35:
